@@ -16,7 +16,7 @@
 (*   expect   what must happen next: [k |-> "request"] | [k |-> "ok",      *)
 (*            status] | [k |-> "err", what]                                *)
 (***************************************************************************)
-EXTENDS Target, ProxyChoice, FiniteSets
+EXTENDS Target, ProxyChoice, RequestDefaults, FiniteSets
 
 Followed == {301, 302, 303, 307, 308}
 
@@ -132,15 +132,20 @@ CallerHeadersKept(cfg, h) ==
      LET name == cfg.req.headers[i][1] IN
      \* the framing / connection fields belong to the library: the caller's values for them may be replaced
      name \in {"content-length", "transfer-encoding", "connection", "host"}
-       \/ ObservedValues(h.req.hdrs, name) = FoldOps(cfg.req.headers, name)
+       \/ name \in DefaultNames          \* judged by G07_defaultHeaders
+       \/ ObservedValues(h.req.hdrs, name) = FoldFrom(FoldOps(cfg.req.headers, name), cfg.defaults.after, name)
 G07_queryAndHeaders(cfg, st, h) ==
   Tun(cfg, st) \/ ((st.hops = 0 => h.req.qmatch = h.req.qpairs) /\ CallerHeadersKept(cfg, h) /\ h.req.authOk)
+\* the fields the library supplies or overrides (RequestDefaults.tla), on every hop
+G07_defaultHeaders(cfg, st, h) ==
+  (Tun(cfg, st) \/ cfg.defaults.session) \/
+  \A name \in DefaultNames : ObservedValues(h.req.hdrs, name) = ExpectedValues(cfg.defaults, name)
 G07_noSecretsToProxy(cfg, st, h) == TRUE
 
 HopGuards == {"G09_noExtraRequest", "G09_bound", "G09_resolvedTarget", "G08_dial", "G08_targetForm", "G08_noFragmentNoCreds",
               "G08_host", "G12_connectOnlyWhenTunnelled", "G12_connectNamesOrigin", "G12_proxyAuthorization",
               "G12_nothingBeforeAgreement", "G12_noSecretsInClear", "G12_sniIsOrigin", "G07_oneWellFormedRequest", "G07_method",
-              "G07_framingConsistent", "G07_bodyFaithful", "G07_connectionClose", "G07_queryAndHeaders", "G07_target"}
+              "G07_framingConsistent", "G07_bodyFaithful", "G07_connectionClose", "G07_queryAndHeaders", "G07_target", "G07_defaultHeaders"}
 HopGuard(g, cfg, st, h) ==
   CASE g = "G09_noExtraRequest" -> G09_noExtraRequest(cfg, st, h)
     [] g = "G09_bound" -> G09_bound(cfg, st, h)
@@ -162,6 +167,7 @@ HopGuard(g, cfg, st, h) ==
     [] g = "G07_connectionClose" -> G07_connectionClose(cfg, st, h)
     [] g = "G07_queryAndHeaders" -> G07_queryAndHeaders(cfg, st, h)
     [] g = "G07_target" -> G07_target(cfg, st, h)
+    [] g = "G07_defaultHeaders" -> G07_defaultHeaders(cfg, st, h)
 
 \* property a failed hop guard belongs to: request-shape guards are C07 on the first request, C10 on later hops;
 \* per-hop peer / Host / proxy choice is C08 on the first request, C10 afterwards
